@@ -40,9 +40,9 @@ type ycursor struct {
 }
 
 type ytree struct {
-	s     *sched.Sched
-	wrap  map[store.Cursor]*ycursor
-	free  bool // free-running (race pass): no scheduler
+	s    *sched.Sched
+	wrap map[store.Cursor]*ycursor
+	free bool // free-running (race pass): no scheduler
 }
 
 func (t *ytree) point(l string) {
@@ -78,11 +78,11 @@ func newYTree(root store.Cursor) (*ytree, *ycursor) {
 	return t, mk(root)
 }
 
-func (y *ycursor) Pos() int                 { y.tree.point("Pos"); return y.c.Pos() }
-func (y *ycursor) Node() node.Node          { y.tree.point("Node"); return y.c.Node() }
+func (y *ycursor) Pos() int                   { y.tree.point("Pos"); return y.c.Pos() }
+func (y *ycursor) Node() node.Node            { y.tree.point("Node"); return y.c.Node() }
 func (y *ycursor) Namespaces() []store.Cursor { y.tree.point("Namespaces"); return y.ns }
 func (y *ycursor) Attributes() []store.Cursor { y.tree.point("Attributes"); return y.at }
-func (y *ycursor) Children() []store.Cursor { y.tree.point("Children"); return y.ch }
+func (y *ycursor) Children() []store.Cursor   { y.tree.point("Children"); return y.ch }
 func (y *ycursor) Parent() store.Cursor {
 	y.tree.point("Parent")
 	p := y.c.Parent()
@@ -94,7 +94,7 @@ func (y *ycursor) Parent() store.Cursor {
 
 // c14Scenario: which expression each call of each thread executes.
 type c14Scenario struct {
-	Name    string     `json:"name"`
+	Name    string      `json:"name"`
 	Threads [][]c14Call `json:"threads"`
 }
 type c14Call struct {
